@@ -154,8 +154,8 @@ void sim::engine_eof(RunCtx& cx) {
     for (unsigned i = 0; i < cuts.size(); i++) {
         if (!cx.kept(i)) continue;
         size_t n = cuts[i];
-        unsigned kind = (unsigned)(mix64(cx.seed, i) % 6);
-        static const char* KN[] = {"stringstream", "simstream-chunked", "ifstream-eof-fault", "ifstream-short-file", "ifstream-unopened", "ifstream-eio"};
+        unsigned kind = (unsigned)(mix64(cx.seed, i) % 7);
+        static const char* KN[] = {"stringstream", "simstream-chunked", "ifstream-eof-fault", "ifstream-short-file", "ifstream-unopened", "ifstream-eio", "stringstream-failbit-set"};
         if (cx.describe) cx.description += " " + std::to_string(n) + "/" + KN[kind];
         cx.log.ev("CUT " + std::to_string(n) + " " + KN[kind]);
         size_t expect_blocks = 0;
@@ -196,6 +196,15 @@ void sim::engine_eof(RunCtx& cx) {
                 got = read_all(is, pattern);
                 break;
             }
+            case 6: {
+                // the bytes are there, but the stream is in a failed state before the reader ever sees it: it cannot be read
+                std::istringstream is(prefix);
+                is.setstate(std::ios_base::failbit);
+                expect_blocks = 0;
+                unreadable = true;
+                got = read_all(is, pattern);
+                break;
+            }
             default: {
                 F.put("/sim/in", file);
                 F.default_rpolicy.eio_at = (long)n;
@@ -213,6 +222,7 @@ void sim::engine_eof(RunCtx& cx) {
         std::string where = "cut at " + std::to_string(n) + " of " + std::to_string(file.size()) + " bytes via " + KN[kind];
         std::string feat = n == 0 ? "/empty-input" : (n % W == 0 ? "/cut-at-window-multiple" : "");
         if (kind == 4) feat = "/unopened-stream";
+        if (kind == 6) feat = "/stream-in-failed-state";
         if (got.blocks.size() > expect_blocks)
             cx.violation("C05", "C05/I22/fabricated-block" + feat, where + ": reader returned " + std::to_string(got.blocks.size()) + " blocks, only " + std::to_string(expect_blocks) +
                                                                       " are wholly inside the prefix (ended with " + got.end_type + ")");
@@ -233,7 +243,7 @@ void sim::engine_eof(RunCtx& cx) {
                     break;
                 }
         }
-        bool intact = n == file.size() && kind != 4 && kind != 5;
+        bool intact = n == file.size() && kind != 4 && kind != 5 && kind != 6;
         if (kind == 5 && n >= file.size() && got.end_type == "eof" && got.blocks.size() == rf.blocks.size()) {
             // the error position lies behind the data and the reader never had to read that far
             cx.ctr->add("probe.read_error_position_never_reached");
